@@ -66,6 +66,10 @@ structure MQSt where
   modified : NilMap GB.C19.Values
   md : NilMap GB.C19.MD
 
+/-- what `parseMetadataQuery` leaves for binding: `modified` when it was created (`r.URL.RawQuery = modified.Encode()`),
+    else the untouched original query -/
+def MQSt.remaining (st : MQSt) (orig : GB.C19.Values) : GB.C19.Values := st.modified.getD orig
+
 /-- the inner loop over the values of one key -/
 def mdValsLoop (mdKey : Bytes) : List Bytes → NilMap GB.C19.MD → Except Fault (NilMap GB.C19.MD)
   | [], md => .ok md
